@@ -123,3 +123,31 @@ def c13_mid_raising(v):
 
 def c13_outer_nested_raising(x):
     return c13_mid_raising(x) + c13_leaf(x)
+
+
+class _C14Block:
+    def __init__(self, w):
+        self.w = w
+
+    def __call__(self, x):
+        import jax.numpy as jnp
+
+        return jnp.tanh(x @ self.w)
+
+
+_C14_WA = np.arange(16, dtype=np.float32).reshape(4, 4) / 16.0
+_C14_WB = _C14_WA[::-1].copy()
+
+
+@onnx_function
+def c14_block_a(x):
+    return _C14Block(_C14_WA)(x)
+
+
+@onnx_function
+def c14_block_b(x):
+    return _C14Block(_C14_WB)(x)
+
+
+def c14_outer(x):
+    return c14_block_a(x) + c14_block_b(x) + c14_block_a(x * 2.0)
